@@ -67,5 +67,8 @@ func (c *channelHolder) delChannel(ch Channel) {
 	c.mutex.Lock()
 	defer c.mutex.Unlock()
 
-	delete(c.channels, ch.ID())
+	// a channel that was refused as a duplicate must not unregister the channel that owns the id.
+	if cur, ok := c.channels[ch.ID()]; ok && cur == ch {
+		delete(c.channels, ch.ID())
+	}
 }
